@@ -10,6 +10,7 @@ import (
 	"sort"
 	"strings"
 	"sync"
+	"time"
 
 	"github.com/miekg/dns"
 	"pgregory.net/rapid"
@@ -43,6 +44,8 @@ type tsigCase struct {
 	RefSigned  bool    // the reference signs (header ID may differ from OrigId by IDDelta)
 	IDDelta    uint16  // header ID = OrigId + IDDelta (reference-signed: the header is rewritten after signing; library-signed: Msg.Id differs from the TSIG's OrigId before TsigGenerate, RFC 8945 4.2 "Original ID")
 	StaleStub  bool    // library-signed: the TSIG stub handed to TsigGenerate still carries a MAC from an earlier use
+	ZeroFudge  bool    // library-signed: the stub carries Fudge 0 (documented default: 300); Fudge must then be 300
+	ZeroTime   bool    // library-signed: the stub carries TimeSigned 0 (documented default: now); Time is replaced by what TsigGenerate used
 	Sample     []int   // sampled flip positions for long messages
 	Far        []int64 // verifier clock offsets (now - time signed) far outside the window: +-(k*2^j) + d, |d| <= fudge+1
 	Secret2    []byte  // "wrong secret" for the only-if clause
@@ -176,7 +179,17 @@ func checkTsig(c tsigCase) (err error) {
 	} else {
 		// (1) TsigGenerate
 		m := c.Msg.Build()
-		m.SetTsig(c.KeyName, c.Alg, c.Fudge, int64(c.Time))
+		// the stub: what the caller hands over. A Fudge of 0 and a TimeSigned of 0 are documented as
+		// "use the default" (300 s / the current time); c.Fudge and c.Time hold the effective values
+		stubFudge, stubTime := c.Fudge, int64(c.Time)
+		if c.ZeroFudge {
+			stubFudge = 0
+		}
+		if c.ZeroTime {
+			stubTime = 0
+		}
+		wallBefore := uint64(time.Now().Unix())
+		m.SetTsig(c.KeyName, c.Alg, stubFudge, stubTime)
 		ts := m.IsTsig()
 		ts.Error = c.Error
 		ts.OtherLen, ts.OtherData = uint16(len(c.Other)), hex.EncodeToString(c.Other)
@@ -245,6 +258,18 @@ func checkTsig(c tsigCase) (err error) {
 				return pbt.Errf("TsigVerify accepted an unsigned TSIG error response")
 			}
 			return nil
+		}
+		if c.ZeroTime {
+			// the signing time is the wall clock at the call: take what is on the wire, it must lie
+			// between the readings taken around the call
+			if wallAfter := uint64(time.Now().Unix()); got.TimeSigned < wallBefore || got.TimeSigned > wallAfter {
+				return pbt.Errf("TsigGenerate with TimeSigned 0 in the stub put time signed %d on the wire, the clock read %d..%d", got.TimeSigned, wallBefore, wallAfter)
+			}
+			c.Time, want.TimeSigned = got.TimeSigned, got.TimeSigned
+			classes = append(classes, "stub-timesigned-0")
+		}
+		if c.ZeroFudge {
+			classes = append(classes, "stub-fudge-0")
 		}
 		if got.TimeSigned != c.Time {
 			return pbt.Errf("TSIG time signed %d, want %d", got.TimeSigned, c.Time)
@@ -444,6 +469,16 @@ func checkTsig(c tsigCase) (err error) {
 	field("MAC: truncated to half", func(t *ref.Tsig) { t.MAC = t.MAC[:len(t.MAC)/2] })
 	field("MAC: truncated to 10 octets", func(t *ref.Tsig) { t.MAC = t.MAC[:10] })
 	field("MAC: empty", func(t *ref.Tsig) { t.MAC = nil })
+	// every proper prefix of the genuine MAC (MAC Size and RDLENGTH consistent), and the genuine MAC
+	// with octets added: RFC 8945 5.2.2.1 lets a verifier accept truncation down to max(10, half) by
+	// local policy; the pinned library has none and accepts the full-length MAC only
+	for k := 1; k < len(base.MAC); k++ {
+		k := k
+		field(fmt.Sprintf("MAC: first %d of %d octets", k, len(base.MAC)), func(t *ref.Tsig) { t.MAC = t.MAC[:k] })
+	}
+	field("MAC: one octet appended", func(t *ref.Tsig) { t.MAC = append(t.MAC, 0x5a) })
+	field("MAC: sixteen octets appended", func(t *ref.Tsig) { t.MAC = append(t.MAC, make([]byte, 16)...) })
+	field("MAC: doubled", func(t *ref.Tsig) { t.MAC = append(t.MAC, t.MAC...) })
 	field("MAC: zero octet appended", func(t *ref.Tsig) { t.MAC = append(t.MAC, 0) })
 	field("MAC: last octet changed", func(t *ref.Tsig) { t.MAC[len(t.MAC)-1] ^= 0x80 })
 	field("original ID +1", func(t *ref.Tsig) { t.OrigID++ })
@@ -465,6 +500,14 @@ func checkTsig(c tsigCase) (err error) {
 		alts = append(alts, alt{"request MAC added", out, c.Secret, bytes.Repeat([]byte{0}, 20), c.TimersOnly})
 	}
 	alts = append(alts, alt{"other timers-only setting", out, c.Secret, c.ReqMAC, !c.TimersOnly})
+	// MAC Size rewritten in place, octets and RDLENGTH left as they are (inconsistent record)
+	if macSizeOff := last.RData + len(base.Algorithm.Wire()) + 8; macSizeOff+2 <= len(out) {
+		for _, k := range []int{0, 1, 10, len(base.MAC) / 2, len(base.MAC) - 1, len(base.MAC) + 1} {
+			x := append([]byte(nil), out...)
+			binary.BigEndian.PutUint16(x[macSizeOff:], uint16(k))
+			alts = append(alts, alt{fmt.Sprintf("MAC Size := %d in place (octets and RDLENGTH unchanged)", k), x, c.Secret, c.ReqMAC, c.TimersOnly})
+		}
+	}
 	// structure alterations
 	alts = append(alts, alt{"TSIG removed, ARCOUNT fixed", stripped, c.Secret, c.ReqMAC, c.TimersOnly})
 	noFix := append([]byte(nil), out[:last.Start]...)
@@ -622,6 +665,15 @@ func genTsig(t *rapid.T) tsigCase {
 		c.IDDelta = rapid.Uint16Range(1, 65535).Draw(t, "iddelta")
 	}
 	c.StaleStub = rapid.IntRange(0, 2).Draw(t, "stalestub") == 0
+	if !c.RefSigned {
+		if rapid.IntRange(0, 3).Draw(t, "zerofudge") == 0 {
+			c.ZeroFudge, c.Fudge = true, 300
+			c.Time = genTime(t, c.Fudge)
+		}
+		if rapid.IntRange(0, 5).Draw(t, "zerotime") == 0 {
+			c.ZeroTime, c.Time = true, 1_700_000_000 // replaced by the time TsigGenerate takes from the clock
+		}
+	}
 	c.Sample = rapid.SliceOfN(rapid.IntRange(0, 1<<22), 64, 64).Draw(t, "sample")
 	for i := 0; i < 6; i++ {
 		j := rapid.IntRange(8, 47).Draw(t, "farbit")
